@@ -86,24 +86,34 @@ def stream_st(draw, d, tmin, tmax, per_call=True):
 
 @st.composite
 def config_st(draw, dmax=5, tmin=2, tmax=12, modes=('exact', 'float'), multi=True, storages=None, name_kinds=None,
-              lbib=True):
+              lbib=True, extra=True, offsets=True):
     d = draw(st.integers(1, dmax))
+    n_extra = draw(st.sampled_from([0, 0, 0, 1, 2])) if extra else 0
+    dt = d + n_extra
+    loss = draw(loss_st())
+    if offsets and draw(st.integers(0, 3)) == 0:
+        loss['offset'] = draw(st.sampled_from([1000, -1000000, 1000000]))
     cfg = {
         'd': d,
+        'extra': [f'zz{i}' for i in range(n_extra)],
         'names': draw(names_st(d, name_kinds) if name_kinds else names_st(d)),
         'dynamic': draw(st.booleans()),
         'alpha': draw(gen.alpha01(closed_zero=False)),
         'n_inner': draw(st.integers(1, 3)),
         'storage': draw(storage_st(storages) if storages else storage_st()),
         'imputer': draw(imputer_st(d)),
-        'model': draw(model_st(d, multi=multi)),
-        'loss': draw(loss_st()),
+        'model': draw(model_st(dt, multi=multi)),
+        'loss': loss,
         'lbib': draw(st.booleans()) if lbib else False,
         'seeds': [draw(gen.seed32), draw(gen.seed32)],
         'mode': draw(st.sampled_from(modes)),
-        'stream': draw(stream_st(d, tmin, tmax)),
+        'stream': draw(stream_st(dt, tmin, tmax)),
     }
     return cfg
+
+
+def all_names(cfg):
+    return list(cfg['names']) + list(cfg.get('extra') or [])
 
 
 class Harness:
@@ -121,9 +131,10 @@ class Harness:
         _random.seed(cfg['seeds'][0])
         _np.random.seed(cfg['seeds'][1] % (2 ** 32))
         self.names = list(cfg['names'])
+        self.all_names = all_names(cfg)     # explained names + features the model reads but that are not explained
         self.log = Log()
         self.faults = Faults() if faults else None
-        self.model = Model(cfg['model'], self.names, self.mode, log=self.log, faults=self.faults)
+        self.model = Model(cfg['model'], self.all_names, self.mode, log=self.log, faults=self.faults)
         self.loss = Loss(cfg['loss'], self.mode, log=self.log, faults=self.faults)
         s = cfg['storage']
         base = {'batch': BatchStorage, 'interval': IntervalStorage, 'sequence': SequenceStorage,
@@ -151,7 +162,7 @@ class Harness:
         self.alpha = Q(cfg['alpha']) if self.mode == 'exact' else float(Q(cfg['alpha']))
 
     def row(self, r):
-        x = {n: num(v, self.mode) for n, v in zip(self.names, r['x'])}
+        x = {n: num(v, self.mode) for n, v in zip(self.all_names, r['x'])}
         y = num(r['y'], self.mode)
         return x, y
 
